@@ -98,7 +98,9 @@ def model_tok(d, p, x, which=0):
 
 # ------------------------------------------------------------------ generators
 LABEL_POOL = ['pop 1', 'YRI', ' lead', 'trail ', 'a  b', '', ' ', 'tab\there', 'ünï', 'folded', 'unfolded x', '#hash',
-              "it's", 'a　b', '3', '1 2', 'CEU', 'x' * 40, '  ', 'p,q', 'back\\slash', ' nb', '中文 pop']
+              "it's", 'a　b', '3', '1 2', 'CEU', 'x' * 40, '  ', 'p,q', 'back\\slash', ' nb', '中文 pop',
+              # the header's own keywords as free-standing words INSIDE a label (blank on both sides)
+              'not folded yet', ' folded ', 'was unfolded once', 'folded unfolded']
 COMMENT_POOL = ['hello', '  padded  ', '', '#double', 'has "quotes"', 'tab\tin', 'unfolded 3 4', 'ünï', ' nbsp ',
                 '1 2 3', 'folded', '\t', 'x' * 100, ' # ', '3 folded "a"', ' em ', '\x1fus\x1c']
 SPECIAL = [0.0, -0.0, 1.0, -1.0, float('nan'), float('inf'), float('-inf'), 5e-324, 2.2250738585072014e-308,
